@@ -985,6 +985,11 @@ NATIVE_EXPRS = [
 ]
 
 
+# texts that the host's readers turn into numbers the language has no literal for: no such value may come out
+NATIVE_ODD = ["parse_json('[NaN]')[0]", "parse_json('[Infinity]')[0]", "parse_json('[-Infinity]')[0]", "parse_json('1e999')",
+              "parse_json('[1e400, 1]')[0]", "decimal('nan')", "decimal('inf')", "decimal('1e999')", "decimal('-infinity')"]
+
+
 def kclass(a):
     return "num" if a["k"] in ("int", "dec") else a["k"]
 
@@ -994,9 +999,18 @@ def native_pairs(cx, events, meta):
     they returned, abstracted exactly, every pair of them"""
     im = cx.im
     made = []
-    for src in NATIVE_EXPRS:
+    for src in NATIVE_EXPRS + NATIVE_ODD:
         o = im.run(src)
         if o[0] != "val":
+            continue
+        # whatever a native hands out is a value: equal to itself, found in a list and a set that hold it
+        r = im.run(f"do def v_ = {src}; [v_ == v_, v_ in [v_], v_ in <<v_>>, length(<<v_, v_>>)] end")
+        if r[0] != "val" or str(r[1]) != "[TRUE, TRUE, TRUE, 1]":
+            cx.run.violation("made-reflexive:" + src,
+                             f"reflexivity: the value of {src} ({str(o[1])[:40]}) answers [v == v, v in [v], v in <<v>>, length(<<v, v>>)] "
+                             f"with {str(r[1])[:60] if r[0] == 'val' else r[:2]}", {"kind": "made", "src": src})
+            continue
+        if src in NATIVE_ODD:
             continue
         try:
             made.append((src, o[1], M.to_abs(o[1], im.refs, True)))
@@ -1213,6 +1227,10 @@ def run(run):
 
 
 def replay(run, case):
+    if case.get("kind") == "made":
+        cx = Ctx(run)
+        native_pairs(cx, [], [])
+        return
     cx = Ctx(run)
     k = case["kind"]
     if k in ("pair", "pair-prog", "eqpair", "nepair", "order"):
